@@ -305,6 +305,29 @@ def r3_max(prog, res):
                     "assigned`: an instance that got it is given a second id and a second node when it is appended again" % (lb, lb_ret))
 
 
+def r3_increment_always_recomputed(prog, res, rule="R3.increment_always_recomputed"):
+    """The id increment belongs to one read: STEPfile::SetFileIdIncrement() is called at the start of every AppendFile and must leave
+    `_fileIdIncr` as a function of the manager's state *now* - every path through it assigns the member.  A path that keeps the old
+    value (`if( MaxFileId() >= 0 ) _fileIdIncr = ...;` without the reset for an empty manager) shifts every id of a file that is read
+    into the cleared manager after an earlier append: a working-session file re-opened in the same session comes back as #2001 ..."""
+    g = prog.one("STEPfile::SetFileIdIncrement")
+    if g is None or g.cfg is None:
+        res.broke("anchor vanished: STEPfile::SetFileIdIncrement")
+        return
+    cfg = g.cfg
+    asg = {x["i"] for x in g.walk() if x["k"] == "Assign" and strip(x["ch"][0]) is not None and strip(x["ch"][0])["k"] == "Member" and
+           strip(x["ch"][0]).get("n") == "_fileIdIncr"}
+    if not asg:
+        res.broke("%s: SetFileIdIncrement no longer assigns _fileIdIncr" % rule)
+        return
+    ends = cfg.paths_avoiding((cfg.entry, -1), lambda nd: any(y["i"] in asg for y in walk(nd)))
+    ok = cfg.exit not in ends
+    res.add(rule, "%s|src/cleditor/STEPfile.inline.cc|STEPfile::SetFileIdIncrement|every-path" % rule.split(".")[0], g.where(), ok,
+            "every path through SetFileIdIncrement assigns _fileIdIncr (%d assignment(s))" % len(asg) if ok else
+            "a path through SetFileIdIncrement leaves _fileIdIncr as an earlier append computed it: the next file read into the (emptied) "
+            "manager has every id and reference shifted by that stale increment")
+
+
 def r3_clear_resets_max(prog, res, rule="R3.cleared_manager_is_recognised_empty"):
     """STEPfile decides whether ids of the next file need an offset by asking `instances().MaxFileId() < K` (empty manager => no
     offset).  Every InstMgr method that empties the master array must therefore leave maxFileId below K - otherwise a file read
@@ -317,8 +340,9 @@ def r3_clear_resets_max(prog, res, rule="R3.cleared_manager_is_recognised_empty"
     for x in g.walk():
         if x["k"] == "If":
             c = strip(x["ch"][0])
-            if c is not None and c["k"] == "Binary" and c.get("op") in ("<", "<=") and "MaxFileId" in expr_str(c["ch"][0]) and isinstance((strip(c["ch"][1]) or {}).get("val"), int):
-                K = strip(c["ch"][1])["val"] + (1 if c["op"] == "<=" else 0)
+            if c is not None and c["k"] == "Binary" and c.get("op") in ("<", "<=", ">=", ">") and "MaxFileId" in expr_str(c["ch"][0]) and isinstance((strip(c["ch"][1]) or {}).get("val"), int):
+                # `max < K` (empty) or its complement `max >= K` (filled)
+                K = strip(c["ch"][1])["val"] + (1 if c["op"] in ("<=", ">") else 0)
     if K is None:
         res.broke("%s: the emptiness test `MaxFileId() < K` of STEPfile::SetFileIdIncrement was not found" % rule)
         return
